@@ -1,12 +1,14 @@
 (* C15 - Lifespan trimming keeps exactly the window (clause 1).
    Clause 2 (readings on the retained candles are unchanged while the look-back is
-   retained): proved at the level of one reading for ten indicator classes without helper
-   series - the value computed at an index is the same with or without the trimmed prefix as
-   long as lookback(class) candles before the index are retained; for the other classes it
-   is decided by the correspondence and the falsifier over the indicator engine. *)
-From Coq Require Import ZArith List Bool Lia.
+   retained): proved for ten indicator classes without helper series, at the level of one
+   reading - the value computed at an index is the same with or without the trimmed prefix as
+   long as lookback(class) candles before the index are retained - and at the level of a whole
+   calculate(): on the retained candles followed by new ones it computes what the untrimmed
+   run computes; for the other classes it is decided by the correspondence and the falsifier
+   over the indicator engine. *)
+From Coq Require Import ZArith List String Bool Lia.
 From Hexital Require Import Base.Prelude Base.Num Model.Manager Model.Candle Model.Readings Model.Engine
-  Proofs.CollapseProofs Proofs.FillProofs Proofs.CausalProofs Proofs.TrimProofs Proofs.TrimCompose Proofs.FillCompose Proofs.FillEngine Proofs.FillTrim.
+  Proofs.CollapseProofs Proofs.FillProofs Proofs.CausalProofs Proofs.TrimProofs Proofs.TrimCompose Proofs.FillCompose Proofs.FillEngine Proofs.FillTrim Proofs.EngineProofs Proofs.TrimRun Inst.ZInst.
 Import ListNotations.
 Local Open Scope Z_scope.
 
@@ -94,3 +96,45 @@ Theorem C15_window_schedule_independent_with_fill :
   mgr_append O (tf_fill_life_cfg tf ls) D ys = tasks O (tf_fill_life_cfg tf ls) (xs ++ ys).
 Proof. intros O tf ls xs ys D Htf Hls Hs HD. eapply manager_fill_lifespan_incremental; eassumption. Qed.
 Print Assumptions C15_window_schedule_independent_with_fill.
+
+(* clause 2 for a whole calculate(): [pre] was trimmed away, [S] are the retained candles (all
+   calculated: they carry the indicator's entry, None included), [new] the raw candles just
+   appended.  With at least two retained candles and the class's look-back retained, calculate()
+   on the manager's list S ++ new gives exactly what calculate() gives on the untrimmed list -
+   same readings on every candle, same exception - because the loop on the retained list
+   mirrors the loop on the whole list index by index.  No assumption on how the retained
+   readings were obtained is needed, so the statement applies again after every later append
+   and trim. *)
+Theorem C15_calculate_unchanged_by_trim_leaf :
+  forall (O : NumOps) (I : ind O) (W : Z),
+  lookback O (i_kind O I) = Some W -> period_ok O (i_kind O I) ->
+  i_subs O I = [] /\ i_managed O I = [] ->
+  (forall rec st i, calc_reading O rec I st i = (v <- pure_calc O I st i ;; Ok (v, st))) ->
+  forall (pre S new : store O),
+  Forall (has_key O I) pre -> Forall (has_key O I) S -> (2 <= List.length S)%nat -> W <= zlen S ->
+  Forall (fresh O I) new ->
+  calculate O I ((pre ++ S) ++ new) = (r <- calculate O I (S ++ new) ;; Ok (pre ++ r)).
+Proof. intros O I W HW Hp Hl Hpu pre S new H1 H2 H3 H4 H5. eapply calculate_after_trim; eassumption. Qed.
+Print Assumptions C15_calculate_unchanged_by_trim_leaf.
+
+(* SMA(2) over Z: five calculated candles, the first two trimmed away, two new candles *)
+Local Open Scope string_scope.
+Definition c15_I : ind ZOps := top ZOps (K_SMA 2 "close") "SMA_2" 4.
+Definition c15_c (ts c : Z) : cd (payload ZOps) := {| t := ts; p := raw_payload ZOps (Build_ohlcv ZOps c c c c 1) |}.
+Definition c15_all : store ZOps :=
+  Eval vm_compute in (match calculate ZOps c15_I [c15_c 60 10; c15_c 120 12; c15_c 180 14; c15_c 240 18; c15_c 300 20] with Ok r => r | Err _ => [] end).
+Definition c15_pre := firstn 2 c15_all.
+Definition c15_S := skipn 2 c15_all.
+Definition c15_new := [c15_c 360 30; c15_c 420 34].
+Definition c15_r : store ZOps :=
+  Eval vm_compute in (match calculate ZOps c15_I (c15_S ++ c15_new)%list with Ok r => r | Err _ => [] end).
+Example C15_trimmed_run_example :
+  calculate ZOps c15_I ((c15_pre ++ c15_S) ++ c15_new)%list = Ok (c15_pre ++ c15_r)%list /\
+  calculate ZOps c15_I (c15_S ++ c15_new)%list = Ok c15_r /\ List.length c15_S = 3%nat /\
+  lookback ZOps (i_kind ZOps c15_I) = Some 2 /\
+  map (fun c => alist_get "SMA_2" (inds ZOps (p c))) c15_r =
+    [Some (@VNum ZOps 13); Some (@VNum ZOps 16); Some (@VNum ZOps 19); Some (@VNum ZOps 25); Some (@VNum ZOps 32)].
+Proof.
+  split; [vm_cast_no_check (@eq_refl (res (store ZOps)) (Ok (c15_pre ++ c15_r)%list))|].
+  split; [vm_cast_no_check (@eq_refl (res (store ZOps)) (Ok c15_r))|]. repeat split.
+Qed.
